@@ -38,6 +38,7 @@ fn spec_for(prop: &str, tier: Tier) -> Option<CheckSpec> {
         }
         "C16" => {
             scenarios = c16::scenarios(tier);
+            scenarios.extend(c16::thread_scenarios(tier));
             rule = "every history (depth bound) of pool and statement-cache operations against a scripted PostgreSQL backend speaking the wire protocol over an in-memory duplex stream; distinct = distinct operation/result log".into();
             assumptions = c16::assumptions();
             level = "model_checking";
